@@ -17,6 +17,7 @@ from ..prng import sub
 from . import c03
 
 ID = "C20"
+PROBES = ['probe_clean_file_changed', 'probe_unclean_file_changed']  # reach probes: counters that must be non-zero in a run (a zero is printed and recorded)
 LEVEL = "exploration"
 BUDGET = {"quick": 420, "thorough": 12000}
 WALL = {"quick": 300, "thorough": 3400}
